@@ -121,8 +121,16 @@ class Driver:
         for l in lines:
             assert '\n' not in l
         data = '\n'.join(lines) + '\n'
-        p = subprocess.run([DRIVER], input=data, stdout=subprocess.PIPE, stderr=subprocess.PIPE,
-                           text=True, timeout=timeout)
+        for attempt in range(6):
+            try:
+                p = subprocess.run([DRIVER], input=data, stdout=subprocess.PIPE, stderr=subprocess.PIPE,
+                                   text=True, timeout=timeout)
+                break
+            except (FileNotFoundError, PermissionError, OSError):
+                # the executable is being relinked by a build that another check started (lake replaces the file)
+                if attempt == 5:
+                    raise
+                time.sleep(5)
         out = p.stdout.split('\n')
         if out and out[-1] == '':
             out.pop()
